@@ -48,9 +48,14 @@ theorem leaveWait_old (wc : WC) : wc.leaveWait.old = wc.old := by
   · exact send_old' _ _
   · rfl
 
-theorem leaveWait_mode (wc : WC) : wc.leaveWait.procMode = wc.procMode := by
+theorem leaveWait_mode (wc : WC) : wc.leaveWait.proc = wc.proc := by
   unfold WC.leaveWait; split
-  · exact send_procMode _ _
+  · exact send_proc _ _
+  · rfl
+
+theorem leaveWait_pst (wc : WC) : wc.leaveWait.pst = wc.pst := by
+  unfold WC.leaveWait; split
+  · exact send_pst _ _
   · rfl
 
 theorem leaveWait_view (wc : WC) (k : Nat) : view wc.leaveWait k = view wc k := by
@@ -62,7 +67,7 @@ theorem leaveWait_oldLookup (wc : WC) (k : Nat) : oldLookup wc.leaveWait k = old
 /-- The sweep: everything still in `oldResources` is deleted downstream, the rest is kept. -/
 theorem sweep_ok {m0 : View} {st0 : Nat} {wc : WC} (h : Inv m0 st0 wc) (hs : wc.status ≠ stWait) :
     Inv m0 st0 wc.sweep ∧ wc.sweep.old = none ∧ wc.sweep.res = wc.res ∧ wc.sweep.status = wc.status ∧
-      wc.sweep.procMode = wc.procMode := by
+      wc.sweep.proc = wc.proc := by
   have e : downFrom m0 wc.out = view wc := funext h.mirror
   -- generic: a state with the same res/status, old = nil, and out extended by the deletions of `ks`
   have key : ∀ (w2 : WC) (ks : List Nat), w2.res = wc.res → w2.old = none → w2.status = wc.status →
@@ -138,14 +143,14 @@ structure FinishOK (m0 : View) (st0 : Nat) (wc w : WC) : Prop where
   status : w.status = stInSync
   /-- everything still in `oldResources` is swept (deleted), the rest is kept -/
   view : ∀ k, view w k = if oldLookup wc k ≠ none then none else view wc k
-  mode : w.procMode = wc.procMode
+  mode : w.proc = wc.proc
 
 theorem finishResync_ok {m0 : View} {st0 : Nat} {wc : WC} (h : Inv m0 st0 wc) :
     FinishOK m0 st0 wc wc.finishResync := by
   have h1 := leaveWait_good h
   obtain ⟨i2, o2, r2, _, p2⟩ := sweep_ok h1 (leaveWait_status wc)
   unfold WC.finishResync
-  refine ⟨i2.send_status _, by rw [send_old']; exact o2, send_status' _ _, ?_, by rw [send_procMode, p2, leaveWait_mode]⟩
+  refine ⟨i2.send_status _, by rw [send_old']; exact o2, send_status' _ _, ?_, by rw [send_proc, p2, leaveWait_mode]⟩
   intro k
   have : view (wc.leaveWait.sweep.send (.status stInSync)) k = lookup wc.res k := by
     simp only [view, oldLookup, send_res, send_old', o2, r2, leaveWait_res, Option.bind_none]
@@ -156,6 +161,18 @@ theorem finishResync_ok {m0 : View} {st0 : Nat} {wc : WC} (h : Inv m0 st0 wc) :
     cases lookup wc.res k <;> rfl
   · simp only [c, ne_eq, not_false_eq_true, if_true]
     exact h.disj k c
+
+theorem finishResync_pst (wc : WC) : wc.finishResync.pst = wc.pst := by
+  unfold WC.finishResync
+  rw [send_pst]
+  have : wc.leaveWait.sweep.pst = wc.leaveWait.pst := by
+    unfold WC.sweep
+    split
+    · split
+      · rfl
+      · show (WC.send _ _).pst = _; rw [send_pst]
+    · rfl
+  rw [this, leaveWait_pst]
 
 /-! ### sendDeletionsForAllResources -/
 
@@ -261,9 +278,11 @@ theorem sendDeletionsForAll_ok {m0 : View} {st0 : Nat} {wc : WC} (h : Good m0 st
 structure ListOK (m0 : View) (st0 : Nat) (wc w : WC) (kvs : List KV) : Prop where
   good : Good m0 st0 w
   status : w.status = stInSync
-  /-- whatever the cache held before, it now holds exactly the converted list -/
-  view : ∀ k, view w k = (kvs.flatMap (convert wc.procMode)).foldl applyKV emptyView k
-  mode : w.procMode = wc.procMode
+  /-- whatever the cache held before, it now holds exactly the list as converted by the processor from its state
+  at the start of the list (fresh, since `OnSyncerStarting` is called just before every List) -/
+  view : ∀ k, view w k = (convSeq wc.proc wc.pst kvs).foldl applyKV emptyView k
+  mode : w.proc = wc.proc
+  pst : w.pst = convState wc.proc wc.pst kvs
 
 theorem processList_ok {m0 : View} {st0 : Nat} {wc : WC} (h : Good m0 st0 wc) (kvs : List KV) :
     ListOK m0 st0 wc (wc.processList kvs) kvs := by
@@ -271,9 +290,10 @@ theorem processList_ok {m0 : View} {st0 : Nat} {wc : WC} (h : Good m0 st0 wc) (k
   have h1 : Inv m0 st0 wc.listSucceeded.leaveWait := leaveWait_good h0.inv
   have hs1 := leaveWait_status wc.listSucceeded
   have o1 : wc.listSucceeded.leaveWait.old = none := by rw [leaveWait_old]; exact h0.idle
-  have pm1 : wc.listSucceeded.leaveWait.procMode = wc.procMode := by rw [leaveWait_mode]; rfl
+  have pm1 : wc.listSucceeded.leaveWait.proc = wc.proc := by rw [leaveWait_mode]; rfl
+  have ps1 : wc.listSucceeded.leaveWait.pst = wc.pst := by rw [leaveWait_pst]; rfl
   unfold WC.processList
-  generalize wc.listSucceeded.leaveWait = w1 at h1 hs1 o1 pm1
+  generalize wc.listSucceeded.leaveWait = w1 at h1 hs1 o1 pm1 ps1
   have g1 : Good m0 st0 w1 := ⟨h1, o1⟩
   -- move everything to oldResources
   have h2 : Inv m0 st0 w1.startSweep := by
@@ -284,11 +304,12 @@ theorem processList_ok {m0 : View} {st0 : Nat} {wc : WC} (h : Good m0 st0 wc) (k
       rw [h1.mirror, g1.view_eq]
       simp [view, oldLookup, lookup, WC.startSweep]
   have hs2 : w1.startSweep.status ≠ stWait := hs1
-  have s := foldl_handleWatchListEvent_ok kvs h2 hs2
+  obtain ⟨s, sp⟩ := foldl_handleWatchListEvent_ok kvs h2 hs2
   have f := finishResync_ok s.inv
-  have pm2 : w1.startSweep.procMode = wc.procMode := pm1
-  rw [pm2] at s
-  refine ⟨⟨f.inv, f.idle⟩, f.status, ?_, by rw [f.mode, s.mode]; exact pm2⟩
+  have pm2 : w1.startSweep.proc = wc.proc := pm1
+  have ps2 : w1.startSweep.pst = wc.pst := ps1
+  rw [pm2, ps2] at s sp
+  refine ⟨⟨f.inv, f.idle⟩, f.status, ?_, by rw [f.mode, s.mode]; exact pm2, by rw [finishResync_pst]; exact sp⟩
   intro k
   rw [f.view, s.old, s.view]
   have ol2 : oldLookup w1.startSweep k = lookup w1.res k := by
@@ -296,7 +317,7 @@ theorem processList_ok {m0 : View} {st0 : Nat} {wc : WC} (h : Good m0 st0 wc) (k
   have vw2 : ∀ k, view w1.startSweep k = lookup w1.res k := by
     intro k; simp [view, oldLookup, lookup, WC.startSweep]
   rw [ol2]
-  cases hm : mentions (kvs.flatMap (convert wc.procMode)) k with
+  cases hm : mentions (convSeq wc.proc wc.pst kvs) k with
   | true =>
     simp only [if_true, ne_eq, not_true_eq_false, if_false]
     exact foldl_applyKV_mem _ _ _ _ ((mentions_iff _ _).mp hm)
@@ -307,6 +328,12 @@ theorem processList_ok {m0 : View} {st0 : Nat} {wc : WC} (h : Good m0 st0 wc) (k
     by_cases c : lookup w1.res k = none
     · simp [c, emptyView]
     · simp [c, emptyView]
+
+theorem notifyConverter_good {m0 : View} {st0 : Nat} {wc : WC} (h : Good m0 st0 wc) :
+    Good m0 st0 wc.notifyConverter := h.of_eq rfl rfl rfl rfl
+
+theorem notifyConverter_proc (wc : WC) : wc.notifyConverter.proc = wc.proc := rfl
+theorem notifyConverter_pst (wc : WC) : wc.notifyConverter.pst = [] := rfl
 
 /-! ### the resync loop -/
 
@@ -320,11 +347,11 @@ theorem beginFull_good {m0 : View} {st0 : Nat} {wc : WC} (h : Good m0 st0 wc) : 
     · exact h'.send_status _
   · exact h'
 
-theorem beginFull_mode (wc : WC) : wc.beginFull.procMode = wc.procMode := by
+theorem beginFull_mode (wc : WC) : wc.beginFull.proc = wc.proc := by
   unfold WC.beginFull
   simp only
   split
-  · split <;> rw [send_procMode]
+  · split <;> rw [send_proc]
   · rfl
 
 /-- What one List step guarantees: the invariant, "still waiting ⇒ a full resync is still owed", and the
@@ -336,14 +363,14 @@ structure ListStepOK (m0 : View) (st0 : Nat) (r : WC × Bool × Bool) : Prop whe
 
 theorem listStep_ok {m0 : View} {st0 : Nat} {wc : WC} (h : Good m0 st0 wc) (lo : ListOut) :
     ListStepOK m0 st0 (listStep wc lo) := by
-  have hb := beginFull_good h
+  have hb := notifyConverter_good (beginFull_good h)
   unfold listStep
   simp only
   cases lo with
   | notFound =>
     simp only
     have f := finishResync_ok hb.inv
-    have g : Good m0 st0 wc.beginFull.onListNotFound := by
+    have g : Good m0 st0 wc.beginFull.notifyConverter.onListNotFound := by
       unfold WC.onListNotFound
       exact (Good.mk f.inv f.idle).of_eq rfl rfl rfl rfl
     exact ⟨g, fun _ => Or.inl rfl, fun c => by cases c⟩
@@ -356,8 +383,8 @@ theorem listStep_ok {m0 : View} {st0 : Nat} {wc : WC} (h : Good m0 st0 wc) (lo :
     unfold WC.onListOther
     simp only
     split
-    · have hx : ∀ w : WC, w.res = wc.beginFull.res → w.old = wc.beginFull.old → w.out = wc.beginFull.out →
-          w.status = wc.beginFull.status →
+    · have hx : ∀ w : WC, w.res = wc.beginFull.notifyConverter.res → w.old = wc.beginFull.notifyConverter.old →
+          w.out = wc.beginFull.notifyConverter.out → w.status = wc.beginFull.notifyConverter.status →
           Good m0 st0 (if (w.send .backendErr).sendDeletesOnConnFail then (w.send .backendErr).sendDeletionsForAll
             else w.send .backendErr) := by
         intro w a b c d
@@ -374,10 +401,10 @@ theorem listStep_ok {m0 : View} {st0 : Nat} {wc : WC} (h : Good m0 st0 wc) (lo :
     · refine ⟨l.good.of_eq rfl rfl rfl rfl, fun _ => Or.inl rfl, fun c => by cases c⟩
     · refine ⟨l.good.of_eq rfl rfl rfl rfl, ?_, ?_⟩
       · intro c
-        have : (wc.beginFull.processList kvs).status = stWait := c
+        have : (wc.beginFull.notifyConverter.processList kvs).status = stWait := c
         rw [l.status] at this; cases this
       · intro _
-        show (wc.beginFull.processList kvs).status ≠ stWait
+        show (wc.beginFull.notifyConverter.processList kvs).status ≠ stWait
         rw [l.status]; decide
 
 theorem watchStep_ok {m0 : View} {st0 : Nat} {wc : WC} (h : Good m0 st0 wc) (full : Bool) (wo : WatchOut) :
@@ -453,30 +480,30 @@ def processed : List Ev → List KV
 
 theorem eventLoop_ok {m0 : View} {st0 : Nat} (evs : List Ev) {wc : WC} (h : Good m0 st0 wc) (hs : wc.status ≠ stWait) :
     Good m0 st0 (eventLoop wc evs) ∧ (eventLoop wc evs).status = wc.status ∧
-      ∀ k, view (eventLoop wc evs) k = ((processed evs).flatMap (convert wc.procMode)).foldl applyKV (view wc) k := by
+      ∀ k, view (eventLoop wc evs) k = (convSeq wc.proc wc.pst (processed evs)).foldl applyKV (view wc) k := by
   induction evs generalizing wc with
   | nil => exact ⟨h, rfl, fun _ => rfl⟩
   | cons ev evs ih =>
     cases ev with
     | upsert kv =>
-      simp only [eventLoop, processed, List.flatMap_cons, List.foldl_append]
-      have s := handleWatchListEvent_ok h.inv hs kv
+      simp only [eventLoop, processed, convSeq, List.foldl_append]
+      obtain ⟨s, sp⟩ := handleWatchListEvent_ok h.inv hs kv
       obtain ⟨g, st, v⟩ := ih (wc := wc.handleWatchListEvent kv) ⟨s.inv, s.idle h.idle⟩ (by rw [s.status]; exact hs)
       refine ⟨g, st.trans s.status, ?_⟩
       intro k
-      rw [v, s.mode]
-      have : view (wc.handleWatchListEvent kv) = (convert wc.procMode kv).foldl applyKV (view wc) := funext s.view
+      rw [v, s.mode, sp]
+      have : view (wc.handleWatchListEvent kv) = (procRun wc.proc wc.pst kv).2.1.foldl applyKV (view wc) := funext s.view
       rw [this]
     | delete kv =>
-      simp only [eventLoop, processed, List.flatMap_cons, List.foldl_append]
-      have s := handleWatchListEvent_ok h.inv hs { kv with del := true }
+      simp only [eventLoop, processed, convSeq, List.foldl_append]
+      obtain ⟨s, sp⟩ := handleWatchListEvent_ok h.inv hs { kv with del := true }
       obtain ⟨g, st, v⟩ := ih (wc := wc.handleWatchListEvent { kv with del := true }) ⟨s.inv, s.idle h.idle⟩
         (by rw [s.status]; exact hs)
       refine ⟨g, st.trans s.status, ?_⟩
       intro k
-      rw [v, s.mode]
+      rw [v, s.mode, sp]
       have : view (wc.handleWatchListEvent { kv with del := true }) =
-          (convert wc.procMode { kv with del := true }).foldl applyKV (view wc) := funext s.view
+          (procRun wc.proc wc.pst { kv with del := true }).2.1.foldl applyKV (view wc) := funext s.view
       rw [this]
     | bookmark r =>
       simp only [eventLoop, processed]
